@@ -192,6 +192,7 @@ def run(ctx):
     # ---- R5 binpkg ----------------------------------------------------------------------------------------------------------------
     bi = P.cls(B, "install")
     ad = bi.methods["add_data"]
+    G.staged_publication_class(ctx, "R5", B, "install", "the binary package")
     # the staged file is the local the tarball is written to; the final path is the local published as self.final_path
     tw = M.one(ad.node, "tar.write_set($_, $tmp, ...)")
     ctx.require(tw is not None, "binpkg install.add_data: tarball write to a local staging path not found")
